@@ -16,6 +16,7 @@
 #include <errno.h>
 #include "mjson.h"
 #include "vclock.h"
+#include "lockrec.h"
 
 #define NEV 5
 #define NW 3
@@ -42,6 +43,14 @@ static struct wrec watch[16];
 static int nwatch;
 
 static int exec_op(jval *op, int incb);
+
+/* n-th allocation fails (C08/C14-style fault injection); 0 = off */
+static long af_countdown, af_total;
+static void *af_malloc(size_t n) { af_total++; if (af_countdown && --af_countdown == 0) return NULL; return malloc(n); }
+static void *af_realloc(void *p, size_t n) { af_total++; if (af_countdown && --af_countdown == 0) return NULL; return realloc(p, n); }
+static void af_free(void *p) { free(p); }
+static void nop_cb(evutil_socket_t fd, short what, void *arg) { (void)fd; (void)what; (void)arg; }
+
 
 static void logcb(int e, long r, const char *k)
 {
@@ -94,17 +103,23 @@ static void run_script(int e)
 static void cb(evutil_socket_t fd, short what, void *arg)
 {
 	int e = (int)(intptr_t)arg;
+	lockrec_cb_enter();
 	logcb(e, what, "cb");
 	run_script(e);
+	lockrec_cb_exit();
 	if (ncblog >= 12 && base) { forced = 1; event_base_loopbreak(base); }
 }
 static void once_cb(evutil_socket_t fd, short what, void *arg)
 {
+	lockrec_cb_enter();
 	logcb(9, what, "once");
+	lockrec_cb_exit();
 }
 static void fin_cb(struct event *e_, void *arg)
 {
 	int e = (int)(intptr_t)arg;
+	lockrec_cb_enter();
+	lockrec_cb_exit();
 	logcb(e, 64, "fin");
 	if (finreq[e] == 2) { alloc[e] = 0; script[e] = NULL; finreq[e] = 0; } /* free_finalize: memory is released */
 	else finreq[e] = 3; /* finalizer has run; event_free is legal again */
@@ -121,6 +136,7 @@ static void wadd(int id, int kind, const char *s)
 	r->id = id; r->kind = kind; r->s = s;
 	r->w = kind == 0 ? evwatch_prepare_new(base, prep_cb, (void *)(intptr_t)id)
 			 : evwatch_check_new(base, check_cb, (void *)(intptr_t)id);
+	if (!r->w) nwatch--;
 }
 static void wscript(int id)
 {
@@ -146,14 +162,18 @@ static void prep_cb(struct evwatch *w, const struct evwatch_prepare_cb_info *inf
 	long r = -1;
 	if (evwatch_prepare_get_timeout(info, &tv))
 		r = (long)(((int64_t)tv.tv_sec * 1000000000LL + (int64_t)tv.tv_usec * 1000) / tick_ns);
+	lockrec_cb_enter();
 	logcb(100 + id, r, "prep");
 	wscript(id);
+	lockrec_cb_exit();
 }
 static void check_cb(struct evwatch *w, const struct evwatch_check_cb_info *info, void *arg)
 {
 	int id = (int)(intptr_t)arg;
+	lockrec_cb_enter();
 	logcb(100 + id, 0, "check");
 	wscript(id);
+	lockrec_cb_exit();
 }
 
 /* ---- clock policy */
@@ -199,13 +219,43 @@ static struct event *mkevent(int e)
 	return NULL;
 }
 
+static int exec_op_inner(jval *op, int incb);
 static int exec_op(jval *op, int incb)
+{
+	const char *a = j_str(op, "a", "none");
+	int r;
+	lockrec_api_enter(a);
+	r = exec_op_inner(op, incb);
+	lockrec_api_return(a);
+	return r;
+}
+static int exec_op_inner(jval *op, int incb)
 {
 	const char *a = j_str(op, "a", "none");
 	int e = (int)j_int(op, "e", 0);
 	struct timeval tv;
 	if (!strcmp(a, "none")) return 0;
-	if (!strcmp(a, "new")) { ev[e] = mkevent(e); alloc[e] = 1; finreq[e] = 0; return ev[e] ? 0 : -1; }
+	if (!strcmp(a, "allocfail")) { af_countdown = j_int(op, "n", 0); return 0; }
+	if (!strcmp(a, "oncebad")) { /* calls the API is coded to reject or that fail in the backend */
+		int k = (int)j_int(op, "n", 0), fd, r = 0;
+		struct timeval one = {1, 0};
+		switch (k) {
+		case 0: fd = open("/etc/passwd", O_RDONLY); r = event_base_once(base, fd, EV_READ, nop_cb, NULL, NULL); close(fd); break; /* epoll_ctl: EPERM */
+		case 1: r = event_base_once(base, -1, EV_SIGNAL, nop_cb, NULL, NULL); break;
+		case 2: r = event_base_once(base, -1, EV_TIMEOUT | EV_PERSIST, nop_cb, NULL, &one); break;
+		case 3: r = event_base_once(base, -1, 0, nop_cb, NULL, NULL); break;
+		case 4: r = event_base_once(base, 1000000, EV_READ, nop_cb, NULL, NULL); break; /* EBADF */
+		case 5: r = event_base_loopbreak(NULL); break;
+		case 6: r = event_base_loopcontinue(NULL); break;
+		case 7: { struct event *x = event_new(base, 1000000, EV_READ, nop_cb, NULL); if (x) { r = event_add(x, NULL); event_free(x); } break; }
+		case 8: { struct event *x = event_new(base, SIGUSR2, EV_SIGNAL | EV_READ, nop_cb, NULL); r = x ? 1 : 0; if (x) event_free(x); break; }
+		case 9: r = event_base_priority_init(base, 0); break;
+		case 10: { fd = open("/etc/passwd", O_RDONLY); struct event *x = event_new(base, fd, EV_READ | EV_PERSIST, nop_cb, NULL); if (x) { r = event_add(x, &one); event_free(x); } close(fd); break; }
+		}
+		return r;
+	}
+	if (e >= 1 && e <= NEV && strcmp(a, "new") && strcmp(a, "script") && strcmp(a, "feed") && strcmp(a, "drain") && !ev[e] && strcmp(a, "wnew") && strcmp(a, "wfree")) return -97; /* event_new failed earlier (fault injection) */
+	if (!strcmp(a, "new")) { ev[e] = mkevent(e); alloc[e] = ev[e] != NULL; finreq[e] = 0; return ev[e] ? 0 : -1; }
 	if (!strcmp(a, "free")) { event_free(ev[e]); ev[e] = NULL; alloc[e] = 0; script[e] = NULL; finreq[e] = 0; return 0; }
 	if (!strcmp(a, "add")) {
 		long long t = j_int(op, "t", -1);
@@ -330,6 +380,9 @@ static void run_scenario(jval *sc)
 	int i, maxcb, limitprio;
 	size_t k;
 
+	lockrec_reset(j_str(cfg, "sid", "0"));
+	af_total = 0;
+	af_countdown = j_int(cfg, "allocfail0", 0);   /* fail the n-th allocation counted from base creation */
 	tick_ns = j_int(cfg, "tick_ns", 1000);
 	nprio = (int)j_int(cfg, "nprio", 3);
 	maxiter = (int)j_int(cfg, "maxiter", 4);
@@ -352,14 +405,26 @@ static void run_scenario(jval *sc)
 	if (j_int(cfg, "changelist", 0)) event_config_set_flag(ec, EVENT_BASE_FLAG_EPOLL_USE_CHANGELIST);
 	if (j_int(cfg, "signalfd", 0)) event_config_set_flag(ec, EVENT_BASE_FLAG_USE_SIGNALFD);
 	if (maxcb > 0) event_config_set_max_dispatch_interval(ec, NULL, maxcb, limitprio);
+	lockrec_api_enter("base_new");
 	base = event_base_new_with_config(ec);
+	lockrec_api_return("base_new");
 	event_config_free(ec);
-	if (!base) { fprintf(out, "{\"obs\":[],\"err\":\"no base\"}\n"); return; }
-	event_base_priority_init(base, nprio);
+	if (!base) {
+		af_countdown = 0;
+		for (i = 1; i <= 2; i++) { close(pipes[i][0]); close(pipes[i][1]); }
+		fprintf(out, "{\"obs\":[],\"err\":\"no base\"}\n"); return;
+	}
+	if (event_base_priority_init(base, nprio) != 0) {
+		/* allocation fault: the base has no usable queues; a program must give up here
+		 * (the base is abandoned, not freed: freeing it would free the old queue array twice) */
+		af_countdown = 0; base = NULL;
+		for (i = 1; i <= 2; i++) { close(pipes[i][0]); close(pipes[i][1]); }
+		fprintf(out, "{\"obs\":[],\"err\":\"priority_init failed\"}\n"); return;
+	}
 	pre = j_get(cfg, "prealloc");
 	for (k = 0; pre && k < pre->n; k++) {
 		int e = (int)pre->items[k]->i;
-		ev[e] = mkevent(e); alloc[e] = 1;
+		ev[e] = mkevent(e); alloc[e] = ev[e] != NULL;
 	}
 	fprintf(out, "{\"obs\":[");
 	for (k = 0; h && k < h->n; k++) {
@@ -368,18 +433,23 @@ static void run_scenario(jval *sc)
 		int r = exec_op(op, 0);
 		if (k) fputc(',', out);
 		if (!base) { fprintf(out, "{\"r\":%d,\"cb\":[%s]}", r, cblog); break; }
+		lockrec_api_enter("observe");
 		print_obs(r, isloop);
 		event_base_assert_ok_(base);
+		lockrec_api_return("observe");
 	}
-	fprintf(out, "]}\n");
+	fprintf(out, "],\"allocs\":%ld}\n", af_total);
 	/* teardown (the line is only emitted afterwards, so that a crash in the
 	 * teardown is attributed to this scenario) */
+	af_countdown = 0;
+	lockrec_api_enter("teardown");
 	if (base) {
 		for (i = 1; i <= NEV; i++)
 			if (alloc[i] && finreq[i] != 1 && finreq[i] != 2) { event_free(ev[i]); alloc[i] = 0; }
 		while (nwatch) wremove(0);
 		event_base_free(base); /* runs pending finalizers */
 	}
+	lockrec_api_return("teardown");
 	for (i = 1; i <= NEV; i++)
 		if (alloc[i]) { free(ev[i]); alloc[i] = 0; }
 	base = NULL;
@@ -391,6 +461,8 @@ int main(int argc, char **argv)
 	char *line;
 	out = stdout;
 	event_set_log_callback(quiet_log);
+	event_set_mem_functions(af_malloc, af_realloc, af_free);
+	lockrec_install();
 	signal(SIGPIPE, SIG_IGN);
 	while ((line = j_readline(stdin))) {
 		if (line[0]) {
